@@ -119,7 +119,9 @@ struct C11 : Scenario {
         double sa = 0, sb = 0;
         for (size_t i = 0; i < n; i++) { sa += a->at(rec * n + i); sb += b->at(i); }
         double s = sb / sa;
-        if (!(std::fabs(s - 1) <= 1e-3)) { o.fail("C11.loading", what + ": loaded data scaled by " + fmt_g(s, 9)); return; }
+        // the start-up renormalisation of a loaded grid is an identity up to rounding (observed: |s-1| <= 2e-7): the uninterrupted
+        // run does not rescale at this step either, so a factor that follows the stored record's drifted charge is not "the stored values"
+        if (!(std::fabs(s - 1) <= 2e-6)) { o.fail("C11.loading", what + ": loaded data scaled by " + fmt_g(s, 9)); return; }
         for (size_t i = 0; i < n; i++) {
             double u = a->at(rec * n + i) * s, v = b->at(i);
             double tol = 4 * 1.1920929e-7 * std::fabs(v) + 1e-30;
@@ -156,6 +158,7 @@ struct C11 : Scenario {
         c2.startfile = "leg1.h5";
         c2.output = "leg2.h5";
         c2.outstep = r.pick(std::vector<long>{1, 2, 100}); c2.saveps = 0;
+        c2.verbose = r.chance(0.4);     // (observer options of the continued run must not matter)
         std::string recdesc = "last";
         if (recmode >= 2 && nrec > 1) {
             // candidates: records whose step is a multiple of renorm (when > 0)
@@ -192,6 +195,7 @@ struct C11 : Scenario {
         std::string cls = T1eff == 1 ? "first" : T1eff == x.S - 1 ? "last" : (base.renorm > 0 && T1eff % (unsigned)base.renorm == 0) ? "renormstep" : "mid";
         o.probe("cls." + cls + (by_sigint ? ".sigint" : ".normal") + "." + recdesc + ".rn" + (base.renorm < 0 ? "off" : base.renorm == 0 ? "init" : "n") + (x.d.has_wake ? ".wake" : ""));
         if (rec + 1 != nrec) o.probe("reach.restart_from_inner_record");
+        if (c2.verbose) o.probe("reach.continued_run_verbose");
         o.mixfp(r1.evhash()); o.mixfp(r2.evhash()); o.mixfp(leg2.digest(all_but({})));
         unlink((x.rc->workdir + "/leg2.h5").c_str());
     }
